@@ -391,6 +391,9 @@ Linear_System<Row>::remove_space_dimensions(const Variables_Set& vars) {
 
   space_dimension_ -= vars.size();
 
+  // The removal of columns can break the row ordering.
+  set_sorted(false);
+
   PPL_ASSERT(OK());
 }
 
